@@ -147,7 +147,7 @@ def replay_chunk(entries, table, sels, seed, thorough):
                 n1 = obs['n']
                 if n0 == 0:
                     continue
-                js = range(nsel) if thorough else rng.sample(range(nsel), 5)
+                js = rng.sample(range(nsel), 16 if thorough else 5)
                 pk = (kchis[:n1], nd)
                 if pk not in table:
                     raise MachineryError('prefix vector not enumerated: %r' % (pk,))
